@@ -1050,6 +1050,10 @@ func (c *compiler) evalForExpression(node *ast.ForExpression) (interface{}, erro
 				// like a nil slice or map: there is nothing to loop over
 				return nil, nil
 			}
+			if _, ok := iter.(Iterator); ok {
+				// a nil iterator: nothing to loop over either (Next cannot be called on it)
+				return nil, nil
+			}
 		}
 		riter = riter.Elem()
 	}
